@@ -8,6 +8,7 @@ import DSymVerif.Props.C09
 #print axioms DSymVerif.C09.relators_sorted
 #print axioms DSymVerif.C09.relators_are_traced_words
 #print axioms DSymVerif.C09.cones_are_traced_words
+#print axioms DSymVerif.C09.letters_are_generators
 #print axioms DSymVerif.C09.fg_total
 #print axioms DSymVerif.C09.generator_facet_pairs
 #print axioms DSymVerif.C09.textbook_onto_returned
